@@ -532,7 +532,10 @@ def diagnose(case, obs):
             # ... and, as a local edit, in the cache generation of the proxy used
             tgt = handles[via][0] if via is not None else gen
             if tgt in snaps:
-                apply_events(snaps[tgt], evs)
+                # a stale proxy edits its own snapshot by what IT holds (a clear through it removes the
+                # snapshot's keys, not the live ones)
+                own = info["snap"][1] if (via is not None and info.get("stale") and "snap" in info) else evs
+                apply_events(snaps[tgt], own)
             for e in evs:
                 for h, (hg, hp) in list(handles.items()):
                     if hp[:len(e[1])] == e[1] and (e[0] == "del" or isinstance(e[2], dict)):
